@@ -373,7 +373,9 @@ def run_impl(case):
                          % (type(e).__name__, e, visited))
                     for x in args:
                         s.discard(x)
-                res = visited[::-1]          # observation in forward order: the model's iteration with removal
+                # abstract level: observation in forward order (the model's iteration with removal); pointer level: the
+                # visit list as visited - the model walks `prev` itself (OSetPtr.reversedRem)
+                res = list(visited) if ptr else visited[::-1]
                 if visited != before[::-1]:
                     fail('iter-remove-current', 'REVERSE iteration with removal of the visited element visited %r, '
                          'the set held %r' % (visited, before))
@@ -444,9 +446,11 @@ def _norm(x):
 def model_line(case):
     head = 'osetp' if case['level'] == 'ptr' else 'oset'
     # a rejected in-place union has taken in the elements its operand yielded before failing: for the model it is that union;
-    # a backward iteration with removal visits the same elements and leaves the same set as the forward one (the harness
-    # reports the visit list in forward order)
-    return dumps([Sym(head)] + [[Sym({'ior-bad': 'ior', 'riter-rm': 'iter-rm'}.get(o[0], o[0]))] + o[1:] for o in case['ops']])
+    # a backward iteration with removal visits the same elements and leaves the same set as the forward one: on the abstract
+    # level the harness reports the visit list in forward order and the model runs its iteration with removal; on the pointer
+    # level the model walks `prev` itself (riter-rm -> OSetPtr.reversedRem) and the visit list is compared as visited
+    ren = {'ior-bad': 'ior'} if case['level'] == 'ptr' else {'ior-bad': 'ior', 'riter-rm': 'iter-rm'}
+    return dumps([Sym(head)] + [[Sym(ren.get(o[0], o[0]))] + o[1:] for o in case['ops']])
 
 
 def model_obs(case, ans):
